@@ -479,6 +479,16 @@ EXPLAIN = ('attribute-fixed:', 'element-fixed:', 'nil', 'skip:', 'lax:', 'cdata'
            'prohibited-attribute-present', 'attribute-wildcard', 'element-default', 'element-fixed', 'mixed-text', 'value-with-whitespace')
 
 
+def quarantine(key, tags):
+    """schemas that contain two wildcards over one namespace (tag overlapping-wildcards) run into the known wildcard
+    bookkeeping defect of the scanners (KF-C08-12): which wildcard an element is matched by -- and therefore everything
+    judged below it -- is unreliable there.  Every key that comes from such a schema says so, so that the known entry can
+    quarantine the construct without hiding the same kind of disagreement in an ordinary schema."""
+    if 'overlapping-wildcards' in tags and 'overlapping-wildcards' not in key:
+        return key + ':in-schema-with-overlapping-wildcards'
+    return key
+
+
 def explain(feats):
     f = sorted(x for x in feats if x.startswith(EXPLAIN))
     if any(x.startswith('nil') and x != 'nil' for x in f):
@@ -845,7 +855,7 @@ def stage_generated(ck, binary, tier, nproc, cov):
                             stats['report_compared_' + mode] += 1
                             if diffs:
                                 d = diffs[0]
-                                ck.violation('C08:report:%s:%s:%s' % (d[0], mode, explain(feats) or 'plain'), 'valid instance: reported %s differs from the governing declaration: %r' % (d[0], d[1:]),
+                                ck.violation(quarantine('C08:report:%s:%s:%s' % (d[0], mode, explain(feats) or 'plain'), w['tags']), 'valid instance: reported %s differs from the governing declaration: %r' % (d[0], d[1:]),
                                              {'case': c.to_json(), 'instance': xml, 'schema': w['docs'][0][1].decode(), 'diffs': [list(map(str, x)) for x in diffs[:5]], 'tags': w['tags']})
                             elif sampled[0] < 3 and f_ == 'tree':
                                 sampled[0] += 1
@@ -875,7 +885,7 @@ def stage_generated(ck, binary, tier, nproc, cov):
                     stats['batch_disagreements_rechecked'] += 1
                     if cls != bcls:
                         # situation tag: the instance's own construct class; only a plain instance is attributed to what preceded it
-                        ck.violation('C08:context-dependent:%s:%s' % ('+'.join(rules) or 'valid', explain(feats) or bline[1]),
+                        ck.violation(quarantine('C08:context-dependent:%s:%s' % ('+'.join(rules) or 'valid', explain(feats) or bline[1]), w['tags']),
                                      'verdict class for the same element differs between stand-alone document and as a child of the wrapper (%s vs %s)' % (cls, bcls),
                                      {'case': bcase.to_json(), 'line_in_batch': bline[0], 'stand_alone_case': c.to_json(), 'instance': xml, 'schema': w['docs'][0][1].decode()})
                     if cls != ('E' if rules else 'V'):
@@ -893,7 +903,7 @@ def stage_generated(ck, binary, tier, nproc, cov):
             for (sig, members), (el, res, scodes, ok, pos) in zip(groups.items(), shrunk):
                 w, i, cfg, cls, ecodes, _p = members[0]
                 f_, label, xml, rules, tree, feats = w['instances'][i]
-                key = disagreement_key(cls, el, res, scodes, pos, w['tns'])
+                key = quarantine(disagreement_key(cls, el, res, scodes, pos, w['tns']), w['tags'])
                 wc = mk_case('witness', cfg, w['ents'], wrap_single(w['tns'], xg.ser(el)))
                 names = {'V': 'valid', 'E': 'invalid (errors)', 'F': 'FATAL error'}
                 for _ in members:
